@@ -3,7 +3,9 @@ package world
 import (
 	"fmt"
 	"io"
+	"net"
 	"net/netip"
+	"strings"
 	"time"
 
 	"github.com/irai/packet"
@@ -46,16 +48,18 @@ type World struct {
 	SharedBuf bool
 	Scribble  bool
 
-	ParseErrs  int
-	Frames     int
-	WireErrs   int
-	outSeen    int
-	OwnMACSeen bool
+	Observations int
+	ParseErrs    int
+	Frames       int
+	WireErrs     int
+	outSeen      int
+	OwnMACSeen   bool
 }
 
 func (w *World) NIC() *packet.NICInfo {
 	u := w.U
 	n := &packet.NICInfo{
+		IFI:         &net.Interface{Index: 2, MTU: 1500, Name: "sim0", HardwareAddr: HW(u.MACs[MOwn])},
 		HomeLAN4:    u.Home,
 		HostAddr4:   packet.Addr{MAC: HW(u.MACs[MOwn]), IP: u.HostIP},
 		RouterAddr4: packet.Addr{MAC: HW(u.MACs[MRouter]), IP: u.RouterIP},
@@ -286,8 +290,11 @@ func (w *World) wireInvariant(o Out) {
 			w.Violation("C07.wire", key, fmt.Sprintf("frame seq=%d t=%v task=%d: %s | %s | hex=%x", o.Seq, time.Duration(o.Time), o.Task, detail, f.Describe(), trunc(o.Data, 96)))
 		}
 	}
+	for range f.Notes {
+		w.Observations++
+	}
 	if len(f.Errs) > 0 {
-		report(kindOf(f)+":"+firstWords(f.Errs[0]), fmt.Sprintf("%q", f.Errs))
+		report(kindOf(f)+":"+wireKey(f.Errs[0]), fmt.Sprintf("%q", f.Errs))
 		return
 	}
 	if f.Src != refdec.MAC(w.U.MACs[MOwn]) {
@@ -300,6 +307,21 @@ func trunc(b []byte, n int) []byte {
 		return b[:n]
 	}
 	return b
+}
+
+// wireKey normalises a decoder complaint: addresses and numbers are dropped.
+func wireKey(s string) string {
+	var words []string
+	for _, w := range strings.Fields(s) {
+		if strings.ContainsAny(w, "0123456789") {
+			continue
+		}
+		words = append(words, strings.Trim(w, ",:"))
+		if len(words) == 8 {
+			break
+		}
+	}
+	return strings.Join(words, "-")
 }
 
 func firstWords(s string) string {
